@@ -166,9 +166,9 @@ def enumerate_cases(tier, shard=0, nshards=1):
     # BIG acyclic models: many formula cells under one SUM, ladders of
     # width 2 (2^depth evaluations without a model-wide memo): a value,
     # never a cycle report, however much work it is
-    for n in (5000, 10050, 20000):
+    for n in (5000, 10050, 12000):
         out.append({'k': 'big', 'shape': 'sum', 'n': n})
-    for n in (13, 15, 16):
+    for n in (13, 14, 15):
         out.append({'k': 'big', 'shape': 'ladder2', 'n': n})
     # WIDE ladders: every formula mentions its precedent twice with a range
     # of `width` other cells in between (=A2+SUM(C1:..1)+A2); the work must
